@@ -52,14 +52,16 @@ func c19Decls() []Declaration {
 	decls := make([]Declaration, n)
 	for i := range decls {
 		var id string
+		minContent := 1
 		if shape == 0 {
 			id = vfString(fmt.Sprint("id", i), 0, 1, "byte")
+			minContent = 0 // a declaration may have an empty content: its line is still emitted
 		} else {
 			id = vfString(fmt.Sprint("id", i), 2, 2, "byte")
 		}
 		decls[i] = Declaration{
 			ID:       id,
-			Content:  vfString(fmt.Sprint("content", i), 1, 1, "byte"),
+			Content:  vfString(fmt.Sprint("content", i), minContent, 1, "byte"),
 			Priority: vfBool(fmt.Sprint("prio", i)),
 		}
 	}
